@@ -31,6 +31,7 @@ TRUSTED = [
 
 IMPORT_SK = "From Aelys Require Import Model.AirLower.\nLocal Open Scope N_scope."
 IMPORT_MO = "From Aelys Require Import Model.AirLower Model.Mono.\nLocal Open Scope N_scope."
+IMPORT_TY = "From Aelys Require Import Model.AirLower Model.Mono Model.AirTypes.\nLocal Open Scope N_scope."
 
 REFUTED = ["mono_closed (C17_mono_closed_refuted, C17_generic_struct_field_refuted: generic structs are never "
            "instantiated, KF-C17-5 open); lower_wf is no longer refuted: it is proved without guard after the repairs"]
@@ -89,7 +90,7 @@ def run(ctx):
     proved = ctx.prove("C17", extracted=["MonoConsts"])
     if ctx.tier == "thorough" and proved:
         ctx.coqchk("C17")
-    ok, out = vlib.coq_make(["Base/CaseCheck.vo", "Model/AirLower.vo", "Model/Mono.vo"])
+    ok, out = vlib.coq_make(["Base/CaseCheck.vo", "Model/AirLower.vo", "Model/Mono.vo", "Model/AirTypes.vo"])
     if not ok:
         ctx.broken.append("coq: model files for the C17 tie do not build")
         ctx.log(out[-2000:])
@@ -117,7 +118,7 @@ def run(ctx):
 
 
 def analyse(ctx, out):
-    src, sk, mo, vs, stats, panics, rej = {}, [], [], [], {}, [], 0
+    src, sk, mo, vs, stats, panics, rej, tyc = {}, [], [], [], {}, [], 0, []
     for line in out.splitlines():
         f = line.split("\t")
         if f[0] == "SRC":
@@ -126,6 +127,8 @@ def analyse(ctx, out):
             sk.append((f[1], f[2], f[3], f[4]))
         elif f[0] == "MO":
             mo.append((f[1], f[2], f[3], f[4]))
+        elif f[0] == "TY":
+            tyc.append((f[1], f[2], f[3], f[4]))
         elif f[0] == "V":
             vs.append(dict(case=f[1], mode=f[2], stage=f[3], fn=int(f[4]), name=f[5], kind=f[6], detail=f[7] if len(f) > 7 else ""))
         elif f[0] == "STAT":
@@ -172,6 +175,21 @@ def analyse(ctx, out):
             {"case": c, "mode": m, "source": unesc(src.get(c, "")), "implementation": o, "model": r}
             for (c, m, _, o), r in zip(bad, mres)]
 
+    # ---- (d) type-name lowering contract tie (signatures of the top-level functions)
+    ty_cases = [(f"(({q}) : list titem)", f"(({o}) : list (list ty))") for (_, _, q, o) in tyc]
+    tfails, err = vlib.coq_eval_cases("c17ty", IMPORT_TY, "lower_types", "tysigs_eqb", ty_cases,
+                                      shard=min(150, max(40, len(ty_cases) // 16 + 1)), timeout=1500)
+    if err:
+        ctx.broken.append("correspondence C17/types: model evaluation failed")
+        ctx.log(err[-3000:])
+    if tfails:
+        ctx.broken.append(f"correspondence C17/types: model and lower() differ on the signatures of {len(tfails)} of {len(ty_cases)} programs")
+        bad = [tyc[i] for i in tfails[:3]]
+        mres, _ = vlib.coq_eval_terms("c17ty", IMPORT_TY, [f"lower_types ({q})" for (_, _, q, _) in bad])
+        ctx.cov["type_disagreements"] = [
+            {"case": c, "mode": m, "source": unesc(src.get(c, "")), "implementation": o, "model": r}
+            for (c, m, _, o), r in zip(bad, mres)]
+
     # ---- (a) direct oracle: classify the validator's findings by root cause
     by_sig = {}
     for v in vs:
@@ -207,7 +225,7 @@ def analyse(ctx, out):
         for fn in re.findall(r"\[\[[^\]]*\](?:;\[[^\]]*\])+\]", o):
             shapes.add(hashlib.sha1(fn.encode()).hexdigest())
     mono_shapes = {hashlib.sha1(o.encode()).hexdigest() for (_, _, _, o) in mo if not o.startswith("([],")}
-    ctx.cov["evaluations"] = len(sk_cases) + len(mo_cases)
+    ctx.cov["evaluations"] = len(sk_cases) + len(mo_cases) + len(ty_cases)
     ctx.cov["distinct_nontrivial"] = len(shapes) + len(mono_shapes)
     ctx.cov["distinct_function_cfgs_with_2plus_blocks"] = len(shapes)
     ctx.cov["distinct_mono_outcomes_with_instances"] = len(mono_shapes)
